@@ -20,3 +20,25 @@ func Model_time_Timer_Stop(t *time.Timer) bool { return true }
 
 //gosmt:model time.Until
 func Model_time_Until(t time.Time) time.Duration { return time.Hour }
+
+var modelTickers []chan time.Time
+
+//gosmt:model time.NewTicker
+func Model_time_NewTicker(d time.Duration) *time.Ticker {
+	ch := make(chan time.Time, 1)
+	modelTickers = append(modelTickers, ch)
+	return &time.Ticker{C: ch}
+}
+
+//gosmt:model (*time.Ticker).Stop
+func Model_time_Ticker_Stop(t *time.Ticker) {}
+
+// FireTickers makes every ticker created so far tick once (native: tickers run on the real clock).
+func FireTickers() {
+	for _, ch := range modelTickers {
+		select {
+		case ch <- time.Unix(modelClock, 0):
+		default:
+		}
+	}
+}
